@@ -655,12 +655,35 @@ def run(ctx: Context) -> None:  # noqa: F811
         reach = ctx.callgraph.reachable([rc], stop=lambda g: g.cls is not h11c)
         n += 1
         bad = []
+
+        def sent_flag_ok(fld: str) -> bool:
+            """`self.<fld>` means `the whole request is on the wire`: reset at the start of every exchange, set True only where the last send has returned."""
+            hr = h11c.methods[N.t("handle_async_request")]
+            first_send = min([c.lineno for c in own_nodes(hr.node) if isinstance(c, ast.Call) and norm(c.func).startswith("self._send_request")] or [0])
+            resets = [st for st in own_nodes(hr.node) if isinstance(st, ast.Assign) and norm(st.targets[0]) == f"self.{fld}" and isinstance(st.value, ast.Constant)
+                      and st.value.value is False and st.lineno < first_send]
+            trues = [(g_, st) for g_ in h11c.methods.values() for st in own_nodes(g_.node) if isinstance(st, ast.Assign) and norm(st.targets[0]) == f"self.{fld}"
+                     and not (isinstance(st.value, ast.Constant) and st.value.value is False)]
+            if not resets or not trues:
+                return False
+            for g_, st in trues:
+                cfg_ = ctx.cfg(g_)
+                sn = cfg_.nodes_for(st)
+                last = [n_ for n_ in cfg_.nodes if n_.ast is not None and n_.kind == "stmt" and any(
+                    isinstance(c_, ast.Call) and ((norm(c_.func) == "self._send_event" and "EndOfMessage" in ast.unparse(c_)) or norm(c_.func) == "self._send_request_body") for c_ in ast.walk(n_.ast))]
+                if not sn or not last or not any(cfg_.dominates(l_, sn[0]) and l_ is not sn[0] for l_ in last):
+                    return False
+            return True
         for q, path in reach.items():
             g = ctx.callgraph.funcs.get(q)
             if g is None or g.cls is not h11c:
                 continue
             for c in own_nodes(g.node):
                 if isinstance(c, ast.Call) and norm(c.func) in ("self._h11_state.next_event", "self._h11_state.receive_data", "self._network_stream.read"):
+                    # reading is sound where a flag says that the send phase has completed
+                    flags = [norm(a)[5:] for t_, pol in guards_of(c) if pol for a, ap in conj_atoms(t_, True) if ap and norm(a).startswith("self._") and isinstance(a, ast.Attribute)]
+                    if any(sent_flag_ok(fl) for fl in flags):
+                        continue
                     bad.append((g, c, path))
         g0, c0, p0 = bad[0] if bad else (rc, None, [])
         rep.ob("C01.R13", fkey(tree, rc, "close-does-not-read"), not bad, where(g0, c0),
